@@ -135,6 +135,9 @@ var BaseAssumptions = []string{
 
 func WriteEvidence(e *Evidence) {
 	dir := filepath.Join(VerifDir, "evidence")
+	if d := os.Getenv("VERIF_EVIDENCE_DIR"); d != "" {
+		dir = d // tools/ set this when a run is made against a deliberately changed tree
+	}
 	os.MkdirAll(dir, 0o755)
 	// samples is always a list, also for a run that stopped at a violation before any sample was chosen
 	if cov := e.Coverage; cov != nil {
